@@ -95,6 +95,9 @@ func main() {
 		r.Inv["module_functions["+name+"]"] = len(w.ModFns)
 		fn(w, r)
 		r.applyFloors()
+		r.Inv["paths_enumerated["+name+"]"] = w.statPaths
+		r.Inv["path_enumerations["+name+"]"] = w.statPathFns
+		r.Inv["abstract_states["+name+"]"] = w.statAbsStates
 	}
 	r.Inv["configs"] = cfgNames
 	if *tier == "thorough" {
